@@ -42,6 +42,21 @@ PROP_SHAPES = {
 }
 
 
+# diff-derived dictionary (tools/anchors.py: dictionary), set by ./check before the generators run
+DICT_INTS = []
+DICT_FLOATS = []
+
+
+def dict_ints(lo=3, hi=10 ** 9):
+    """d-1, d, d+1 for every new integer literal d of the anchored code within [lo, hi]"""
+    out = []
+    for d in DICT_INTS:
+        for v in (d - 1, d, d + 1):
+            if lo <= v <= hi and v not in out:
+                out.append(v)
+    return out
+
+
 class Broken(Exception):
     """the check itself is broken (not a finding about /repo)"""
 
